@@ -1440,17 +1440,20 @@ class MPO(MPSGeometry):
             if self.get_IdL(i) is None:
                 continue
             partial_L[self.get_IdL(i)] = [([], 1.0)]
+            max_range_i = max_range
             if self.finite:
-                max_range = min(max_range, L - i - 1)
-            for k in range(max_range + 1):
+                max_range_i = min(max_range, L - i - 1)  # (don't narrow it for later `start`)
+            for k in range(max_range_i + 1):
                 j = i + k
                 IdL = self.get_IdL(j)
                 IdR = self.get_IdR(j)
-                if IdR is None:
-                    IdR = -1  # not equal to positive index
                 site_j = self.sites[j % L]
                 W = self.get_W(j)
                 W = W.transpose(['wL', 'wR', 'p', 'p*'])
+                if IdR is None:
+                    IdR = -1  # not equal to positive index
+                else:
+                    IdR = IdR % W.get_leg('wR').ind_len  # may be stored as a negative index
                 op_basis_j = op_basis[j % len(op_basis)]
                 partial_R = [None] * W.get_leg('wR').ind_len
                 if k > 0 and IdL is not None:
